@@ -19,7 +19,7 @@ lemma("ncmp_meaning", props=["C03"], vars=_PQR[:2], hyps=["ranked(p)", "ranked(q
 
 # nondominated_truncate: de-duplicate designs (set), sort by (front, -crowding), keep the first `size`
 define("same_design", ["a", "b"], "seq_eq(a.vector, b.vector)")
-contract("artap.operators:nondominated_truncate", props=["C03", "C09"],
+contract("artap.operators:nondominated_truncate", props=["C03", "C09", "C20"],
          options={"proved_orders": ["total_preorder:nondominated_cmp"]},
          types={"population": "List[Ref[Individual]]", "size": "Int", "result": "List[Ref[Individual]]"},
          locals={"population": "List[Ref[Individual]]", "result": "List[Ref[Individual]]"},
